@@ -961,7 +961,7 @@ def run(tier, seed):
     S.map("compile.zero_strength.classical_controlled", det([c for c in zs if _has_cc(c)]))
     em = [c for c in rand_zero] + zero_meas[:: 2] + zero_structured[:: 6]
     S.map("compile.empty_noise_map", [c for c in em if not _has_cc(c)])
-    S.map("compile.empty_noise_map.classical_controlled", det([c for c in em if _has_cc(c)]))
+    S.map("compile.empty_noise_map.classical_controlled", det([c for c in zs if _has_cc(c)]))
 
     # ---------------- noise maps
     nmap = 900 if thorough else 250
